@@ -11,6 +11,7 @@ import (
 	"path/filepath"
 	"sort"
 	"strings"
+	"sync"
 )
 
 type cand struct {
@@ -21,17 +22,28 @@ type cand struct {
 var quickN int
 
 // quickCheck: hyps ⊢ goal ? (synchronous, short timeout; only `unsat` counts as proved)
-func (c *FnCtx) quickCheck(hyps []string, goal string) bool { return c.quickCheckT(hyps, goal, 3, []string{"z3-new", "cvc5"}) }
+func (c *FnCtx) quickCheck(hyps []string, goal string) bool {
+	return c.quickCheckT(hyps, goal, 3, []string{"z3-new", "cvc5"})
+}
 
 func (c *FnCtx) quickCheckT(hyps []string, goal string, secs int, solvers []string) bool {
+	return c.quickCheckP(c.prelude(), hyps, goal, secs, solvers)
+}
+
+var quickMu sync.Mutex
+
+func (c *FnCtx) quickCheckP(prelude string, hyps []string, goal string, secs int, solvers []string) bool {
 	var b strings.Builder
-	b.WriteString(c.prelude())
+	b.WriteString(prelude)
 	for _, h := range hyps {
 		fmt.Fprintf(&b, "(assert %s)\n", h)
 	}
 	fmt.Fprintf(&b, "(assert (not %s))\n(check-sat)\n", goal)
+	quickMu.Lock()
 	quickN++
-	fn := filepath.Join(queryDir, fmt.Sprintf("houdini_%d_%d.smt2", os.Getpid(), quickN))
+	qn := quickN
+	quickMu.Unlock()
+	fn := filepath.Join(queryDir, fmt.Sprintf("houdini_%d_%d.smt2", os.Getpid(), qn))
 	os.WriteFile(fn, []byte(b.String()), 0o644)
 	defer os.Remove(fn)
 	r := solveRace(context.Background(), fn, secs, solvers, false)
@@ -91,6 +103,12 @@ func (c *FnCtx) loopCandidates(st *State, node ast.Node, ms *modSet) []cand {
 			}
 			return ""
 		}})
+		cs = append(cs, cand{"1 <= " + v.Name(), func(s *State) string {
+			if x := get(s, v); x != nil {
+				return tApp("<=", "1", x.T)
+			}
+			return ""
+		}})
 		for _, q := range seqs {
 			q := q
 			cs = append(cs, cand{v.Name() + " <= len(" + q.Name() + ")", func(s *State) string {
@@ -115,6 +133,25 @@ func (c *FnCtx) loopCandidates(st *State, node ast.Node, ms *modSet) []cand {
 			}})
 		}
 	}
+	// sequences modified in the loop: their length is often unchanged (element stores)
+	for _, q := range seqs {
+		q := q
+		if !ms.vars[q] {
+			continue
+		}
+		v0 := st.vars[q]
+		if v0 == nil || (v0.S != SStr && !isSeq(v0.S)) {
+			continue
+		}
+		entryLen := c.seqLen(v0)
+		cs = append(cs, cand{"len(" + q.Name() + ") unchanged", func(s *State) string {
+			y := get(s, q)
+			if y == nil || (y.S != SStr && !isSeq(y.S)) {
+				return ""
+			}
+			return tEq(c.seqLen(y), entryLen)
+		}})
+	}
 	return cs
 }
 
@@ -123,17 +160,36 @@ func (c *FnCtx) loopCandidates(st *State, node ast.Node, ms *modSet) []cand {
 func (c *FnCtx) inferInvariants(st *State, node ast.Node, cands []cand, run func(assumed []cand) (entry *State, back []*State)) []cand {
 	live := cands
 	// entry filter
-	var keep []cand
-	for _, k := range live {
-		t := k.term(st)
-		if t == "" {
-			continue
+	{
+		terms := make([]string, len(live))
+		for i, k := range live {
+			terms[i] = k.term(st)
 		}
-		if c.quickCheck(st.pc, t) {
-			keep = append(keep, k)
+		pre := c.prelude()
+		okv := make([]bool, len(live))
+		var wg sync.WaitGroup
+		sem := make(chan struct{}, 8)
+		for i := range live {
+			if terms[i] == "" {
+				continue
+			}
+			wg.Add(1)
+			sem <- struct{}{}
+			go func(i int) {
+				defer wg.Done()
+				defer func() { <-sem }()
+				okv[i] = c.quickCheckP(pre, st.pc, terms[i], 3, []string{"z3-new", "cvc5"})
+			}(i)
 		}
+		wg.Wait()
+		var keep []cand
+		for i, k := range live {
+			if okv[i] {
+				keep = append(keep, k)
+			}
+		}
+		live = keep
 	}
-	live = keep
 	for iter := 0; iter < 8 && len(live) > 0; iter++ {
 		// trial run: discard obligations and warnings produced
 		so, sn := len(c.obls), map[string]int{}
@@ -149,19 +205,49 @@ func (c *FnCtx) inferInvariants(st *State, node ast.Node, cands []cand, run func
 		c.rejected = srej
 		changed := false
 		var next []cand
-		for _, k := range live {
-			ok := true
-			for _, b := range back {
-				t := k.term(b)
-				if t == "" || !c.quickCheck(b.pc, t) {
-					ok = false
-					break
+		{
+			pre := c.prelude()
+			okv := make([]bool, len(live))
+			type job struct {
+				i int
+				b *State
+				t string
+			}
+			var jobs []job
+			for i, k := range live {
+				okv[i] = true
+				for _, b := range back {
+					t := k.term(b)
+					if t == "" {
+						okv[i] = false
+						break
+					}
+					jobs = append(jobs, job{i, b, t})
 				}
 			}
-			if ok {
-				next = append(next, k)
-			} else {
-				changed = true
+			var mu sync.Mutex
+			var wg sync.WaitGroup
+			sem := make(chan struct{}, 8)
+			for _, j := range jobs {
+				wg.Add(1)
+				sem <- struct{}{}
+				go func(j job) {
+					defer wg.Done()
+					defer func() { <-sem }()
+					if !c.quickCheckP(pre, j.b.pc, j.t, 3, []string{"z3-new", "cvc5"}) {
+						mu.Lock()
+						okv[j.i] = false
+						mu.Unlock()
+					}
+				}(j)
+			}
+			wg.Wait()
+			for i, k := range live {
+				if okv[i] {
+					next = append(next, k)
+				} else {
+					changed = true
+				}
 			}
 		}
 		live = next
